@@ -1129,6 +1129,13 @@ def plan(prop, tier, seed, known):
             jobs.append({"name": "race%d" % i, "module": "LockTrace.tla", "cfg": "LockTrace.cfg", "race": True, "driver_timeout": 1800,
                          "driver": ["conc", "-access", "-seed", str(seed * 100 + 50 + i), "-segs", "9" if q else "24", "-steps", "12",
                                     "-clients", str(2 + i % 3), "-avoid", av] + (["-many", "140"] if i % 2 == 1 else [])})
+        # the directed windows under the race detector: a victim held inside its commit, between its locks, or between reading its
+        # inode from the disk and filling its cache slot while the inode cache is turned over (what random schedules rarely produce)
+        for k in range(4):
+            jobs.append({"name": "racewin%d" % k, "module": "LockTrace.tla", "cfg": "LockTrace.cfg", "race": True, "driver_timeout": 1800,
+                         "driver": ["windows", "-part", "-3", "-parts", "4", "-seed", str(k)]})
+        jobs.append({"name": "racerelock", "module": "LockTrace.tla", "cfg": "LockTrace.cfg", "race": True, "driver_timeout": 1800,
+                     "driver": ["windows", "-part", "-2", "-parts", "-1", "-seed", "0"]})
     elif prop == "C19":
         n = 4 if q else 24
         for i in range(n):
